@@ -29,9 +29,15 @@ type Obligation struct {
 }
 
 type State struct {
-	pc    *Term
-	heap  map[string]*Term
-	epoch int
+	pc     *Term
+	heap   map[string]*Term
+	epoch  int
+	defers []deferEntry // deferred calls registered on the paths that reach this state
+}
+
+type deferEntry struct {
+	d     *ssa.Defer
+	guard *Term // path condition under which the defer statement was executed
 }
 
 func (s *State) clone() *State {
@@ -39,7 +45,7 @@ func (s *State) clone() *State {
 	for k, v := range s.heap {
 		h[k] = v
 	}
-	return &State{pc: s.pc, heap: h, epoch: s.epoch}
+	return &State{pc: s.pc, heap: h, epoch: s.epoch, defers: append([]deferEntry{}, s.defers...)}
 }
 
 type Frame struct {
@@ -112,6 +118,9 @@ type Exec struct {
 	InitHeap map[string]*Term
 	rootArgs *Term
 	retN     int
+	retN2    int
+	presSorts map[string]string
+	ghostOn  bool
 }
 
 // Hook lets a family observe calls (ghost state).
@@ -673,6 +682,19 @@ func (e *Exec) mergeStates(ins []*State) *State {
 		pcs = append(pcs, s.pc)
 	}
 	out := &State{pc: e.def(SBool, Or(pcs...)), heap: map[string]*Term{}}
+	for _, s := range ins {
+		for _, de := range s.defers {
+			dup := false
+			for _, o := range out.defers {
+				if o.d == de.d {
+					dup = true
+				}
+			}
+			if !dup {
+				out.defers = append(out.defers, de)
+			}
+		}
+	}
 	same := true
 	for _, s := range ins[1:] {
 		if s.epoch != ins[0].epoch {
